@@ -383,6 +383,10 @@ class ExprMixin:
             if isinstance(a, FuncRef) and isinstance(b, FuncRef):
                 r = a.qual == b.qual
                 return (not r) if neg else r
+            from .models import PyType
+            if isinstance(a, PyType) and isinstance(b, PyType):
+                r = a.cid == b.cid
+                return z3.Not(r) if neg else r
             raise OutOfSubset("is on non-None", node)
         if isinstance(op, (ast.Eq, ast.NotEq)):
             r = self.equal(a, b, st, node)
